@@ -818,6 +818,36 @@ class C01(ost.OutstationProp):
             out.append(Case(sid, script_text(sid, "outstation", cfg, ops), meta))
         return out
 
+    def cases_outstation_edges(self, rng):
+        """deterministic: every READ-able static group with ONE range header whose start / stop pair is an edge
+        (inverted, empty, top of the index space) in an otherwise well-formed READ, in idle and during a solicited
+        confirm wait; then the liveness probe (seeded change C01_a was caught by chance only until this family)"""
+        out = []
+        F = ost.FN
+        k = 0
+        for g in (1, 3, 10, 20, 21, 30, 40, 110):
+            for wide in (False, True):
+                for (a, b) in ((10, 5), (1, 0), (255, 0) if not wide else (65535, 0), (0, 255) if not wide else (65535, 65535)):
+                    sid = "c01_e_%d" % k; k += 1
+                    cfg = self.base_cfg(rng, unsol=0)
+                    cfg.update({"decode": k % 4, "soltx": 2048, "rx": 2048, "evbuf": 3, "confirm_ms": 1000})
+                    ops = [("add", "binary", 0, 1), ("add", "analog", 1, 2), ("add", "counter", 2, 3), ("add", "octet", 3, 0)]
+                    seq = rng.below(16)
+                    hdr = header_bytes(g, 0, D.Q_RANGE16 if wide else D.Q_RANGE8, a, b)
+                    if k % 2:
+                        ops.append(("update", "binary", 0, "1", 1, 50))
+                        ops.append(("rx", ost.MASTER, "none", hexs(ost.frag(seq, F["read"], ost.read_classes((1, 2, 3))))))   # now awaiting a confirm
+                        seq = (seq + 1) & 15
+                    body = hdr if k % 3 else hdr + header_bytes(30, 0, D.Q_ALL, 0, 0)
+                    ops.append(("rx", ost.MASTER, "none", hexs(bytes([ost.ctl(seq), F["read"]]) + body)))
+                    pseq = (seq + 1) & 15
+                    probe_at = len(ops)
+                    ops.append(("rx", ost.MASTER, "none", hexs(ost.frag(pseq, F["read"], ost.read_classes((0,))))))
+                    ops.append(("sleep", 2200))
+                    out.append(Case(sid, script_text(sid, "outstation", cfg, ops),
+                                    {"engine": "outstation", "kind": "read-edge", "cfg": cfg, "probe_op": probe_at, "probe_seq": pseq}))
+        return out
+
     def oracle_outstation(self, case, impl):
         m = case.meta
         fails = []
@@ -1170,6 +1200,7 @@ class C01(ost.OutstationProp):
         out = []
         out += self.cases_link(rng, 220 if quick else 7000)
         out += self.cases_outstation(rng, 320 if quick else 8000, huge=4 if quick else 120)
+        out += self.cases_outstation_edges(rng)
         out += self.cases_app(rng, 100 if quick else 3000)
         out += self.cases_master(rng, 120 if quick else 3000)
         out += self.cases_accept(rng, tier)         # last: the random stream of the other families is unchanged
